@@ -461,8 +461,8 @@ def run_pool(tier, seed, names=None, force=False):
                                "rejected": [], "findings": []}
                 line += nlines
                 mline += mlines
-        v = vlib.validate_trace(cat, "%s.%s" % (key, n))
-        x = vlib.validate_cross(mcat, "%s.%s.x" % (key, n))
+        v = vlib.validate_robust(cat, "%s.%s" % (key, n), vlib.validate_trace)
+        x = vlib.validate_robust(mcat, "%s.%s.x" % (key, n), vlib.validate_cross)
 
         def owner(ln):
             for sname, r in runs.items():
@@ -481,7 +481,12 @@ def run_pool(tier, seed, names=None, force=False):
             for sname, r in runs.items():
                 if r["first_mline"] <= ln <= r["last_mline"]:
                     r["findings"].append([prop, ln - r["first_mline"] + 1, why + " [merged trace]"])
-        return n, runs, {"trace": cat, "events": line, "secs": v["secs"] + x["secs"], "error": v["error"] or x["error"], "accepted": v["accepted"]}
+        for ln in v.get("uninterpretable", []):
+            sname, local = owner(ln)
+            if sname:
+                runs[sname]["rejected"].append({"line": local, "why": "execution cannot be interpreted by the specification / monitors (TLC evaluation error)", "detail": ""})
+        return n, runs, {"trace": cat, "events": line, "secs": v["secs"] + x["secs"], "error": v["error"] or x["error"], "accepted": v.get("accepted", False),
+                         "uninterpretable": len(v.get("uninterpretable", [])) + len(x.get("uninterpretable", []))}
 
     with ThreadPoolExecutor(max_workers=max(2, vlib.NCPU - 2)) as ex:
         for n, runs, summ in ex.map(one, jobs):
